@@ -25,7 +25,7 @@ Definition mkreq (sh : shape_t) (m o : N) : reqx :=
 (* cases travel as primitive 63-bit integers (fast to parse); field k of width w *)
 Definition fld (w : N) (off width : N) : N := N.land (N.shiftr w off) (N.ones width).
 
-(* direct calls of checkAuth: word 1 = shape(8) method(2) origin(2) required mask(16) admitted(1)
+(* direct calls of checkAuth: word 1 = shape(8) method(2) origin(2) required mask(16) accepted(1)
    user(8); word 2 = level(16) status written(10, 0 = none) IssuedAt - now + 16384 (16; 32767 = not compared) *)
 Definition gate_case := (int * int)%type.
 Definition gate_bad (shapes : list shape_t) (now : Z) (c : gate_case) : bool :=
